@@ -4,7 +4,7 @@ import re
 import z3
 
 from .types import Ty, INT, BOOL, REAL, ANY, parse_type, base_sort, flatten
-from .state import (V, Unsupported, fresh_name, to_terms, from_terms, mk_int, mk_bool, NONE_V)
+from .state import (V, Unsupported, fresh_name, to_terms, from_terms, mk_int, mk_bool, NONE_V, coerce)
 from .source import SourceError
 
 I = z3.IntSort()
@@ -136,7 +136,7 @@ class HeapMixin(object):
       return [(k, so) for k, so in list(self.heap_sorts.items()) if k != '$cls']
     if pat == '$cls':
       return [('$cls', [I, I])]
-    m = re.match(r'^(list|set|dict|deque)\[.*\]', pat)
+    m = re.match(r'^(list|set|dict|ddict|deque)\[.*\]', pat)
     if m:
       depth = 0
       end = None
@@ -169,7 +169,7 @@ class HeapMixin(object):
     try:
       if key == '$cls':
         return False
-      m = re.match(r'^((list|set|dict|deque)\[.*\])\.(\w+)((#\d+)*)(#none)?$', key)
+      m = re.match(r'^((list|set|dict|ddict|deque)\[.*\])\.(\w+)((#\d+)*)(#none)?$', key)
       if m:
         ty = parse_type(m.group(1))
         comp = m.group(3)
@@ -273,6 +273,26 @@ class HeapMixin(object):
 
   def dyn_class(self, st, ref):
     return z3.Select(self.arr(st, '$cls', [I, I]), ref)
+
+  def key_term(self, st, v, kty):
+    """The term a dictionary / set keys a value by.  Instances of a class the sidecar declares with value_key
+    (its __eq__/__hash__ compare exactly those fields: an obligation on the class, see lemma_source_*) are keyed
+    by an injective function of those fields; everything else by its own term."""
+    if kty.k == 'ref' and isinstance(v, V) and v.ty.k == 'ref':
+      ci = self.reg.classes.get(kty.name)
+      if ci is not None and ci.value_key:
+        fs = [self.load_field(st, v.t, kty.name, f) for f in ci.value_key]
+        ts = [coerce(f, f.ty) for f in fs]
+        fn = z3.Function('vkey_' + kty.name, *([I] * (len(ts) + 1)))
+        k = fn(*ts)
+        mark = ('vkey', kty.name)
+        if mark not in st.wf_ids:      # injective: each field is recovered from the key (axiom, once per path)
+          st.wf_ids.add(mark)
+          xs = [z3.Int('vk%d' % n) for n in range(len(ts))]
+          body = z3.And(*([z3.Function('vkey_%s_%d' % (kty.name, n), I, I)(fn(*xs)) == xs[n] for n in range(len(ts))] + [fn(*xs) > 0]))
+          st.assume(z3.ForAll(xs, body, patterns=[fn(*xs)]))
+        return k
+    return coerce(v, kty)
 
   # ---------------------------------------------------------------- lists
   def ckey(self, ty, comp):
@@ -388,6 +408,15 @@ class HeapMixin(object):
         key = self.ckey(d.ty, 'val') + suf
         va = self.arr(st, key, [I, base_sort(kty), so])
         st.heap[key] = z3.Store(va, d.t, z3.Store(z3.Select(va, d.t), k, t))
+
+  def dict_init_empty(self, st, d):
+    kty = d.ty.args[0]
+    hk = self.ckey(d.ty, 'has')
+    a = self.arr(st, hk, [I, base_sort(kty), B])
+    st.heap[hk] = z3.Store(a, d.t, z3.EmptySet(base_sort(kty)))
+    ck = self.ckey(d.ty, 'card')
+    ca = self.arr(st, ck, [I, I])
+    st.heap[ck] = z3.Store(ca, d.t, z3.IntVal(0))
 
   def dict_card(self, st, d):
     c = z3.Select(self.arr(st, self.ckey(d.ty, 'card'), [I, I]), d.t)
